@@ -1,5 +1,5 @@
 (* C09 — Restart intensity limit.  Property theorems only; proofs live in Sup/. *)
-From Ergo Require Import Common.Base Sup.Intensity Sup.IntensityProofs.
+From Ergo Require Import Common.Base Sup.Intensity Sup.IntensityProofs Sup.Machine Sup.MachineProofs.
 Local Open Scope Z_scope.
 
 (* exceeded_k  <->  the k-th restart request is the (Intensity+1)-th or later within the last
@@ -33,3 +33,48 @@ Example C09_example :
   sorted [0; 400; 900; 5000; 5100; 5200] = true /\
   snd (run_checks [] [0; 400; 900; 5000; 5100; 5200] 1 2) = [false; false; true; false; false; true].
 Proof. vm_compute. split; reflexivity. Qed.
+
+(* ---- the machines give up: when the check says "exceeded", every running child is told to stop with the
+   exceeded reason, the machine waits for exactly these children and stores the exceeded reason (for any
+   machine state, i.e. any number of children and any history) ... *)
+Theorem C09_gives_up_ofo : forall k s name pid reason now j sp,
+  shut s = false -> last_match name pid (specs s) 0 = Some (j, sp) ->
+  forall rs, c_dis sp = false -> strategy_stops k reason = false ->
+  check (restarts s) now (k_per k) (k_int k) = (rs, true) ->
+  let run := running_others name pid (specs s) in
+  exists s', ofo_childTerminated k s name pid reason now = (s', RAct (TerminateChildren run RExceeded)) /\
+             running (specs s') = run /\ wait s' = zset run /\ shut s' = true /\ sreason s' = RExceeded.
+Proof. exact ofo_gives_up. Qed.
+Print Assumptions C09_gives_up_ofo.
+
+Theorem C09_gives_up_arfo : forall k s name pid reason now j sp,
+  (mode s =? 3) = false -> (mode s =? 2) = false -> last_match name pid (specs s) 0 = Some (j, sp) ->
+  forall rs, c_dis sp = false -> strategy_stops k reason = false ->
+  check (restarts s) now (k_per k) (k_int k) = (rs, true) ->
+  let run := running_others name pid (specs s) in
+  exists s', arfo_childTerminated k s name pid reason now = (s', RAct (TerminateChildren run RExceeded)) /\
+             running (specs s') = run /\ wait s' = zset run /\ mode s' = 3 /\ sreason s' = RExceeded.
+Proof. exact arfo_gives_up. Qed.
+Print Assumptions C09_gives_up_arfo.
+
+Theorem C09_gives_up_sofo : forall k s name pid reason now sp,
+  shut s = false -> find_name name (specs s) = Some sp ->
+  forall rs, strategy_stops k reason = false -> c_dis sp = false ->
+  check (restarts s) now (k_per k) (k_int k) = (rs, true) ->
+  let t := map fst (premove pid (pids s)) in
+  exists s', sofo_childTerminated k s name pid reason now = (s', RAct (TerminateChildren t RExceeded)) /\
+             map fst (pids s') = t /\ (forall p, In p t -> In p (wait s')) /\
+             shut s' = true /\ sreason s' = RExceeded.
+Proof. exact sofo_gives_up. Qed.
+Print Assumptions C09_gives_up_sofo.
+
+(* ... and once shutting down the supervisor terminates with the stored reason (here: the exceeded reason) as
+   soon as the exits of all awaited children have arrived, in any order, whatever else arrives meanwhile; until
+   then it only waits (handleAction terminates at once when the stop list is empty and the reason non-nil). *)
+Theorem C09_gives_up_terminates : forall k l s,
+  shutting_any k s = true -> l <> [] ->
+  (forall p, In p (wait s) -> In p (map em_pid l)) ->
+  exists pre, firstn (S (length pre)) (drain k s l) = pre ++ [RAct (Terminate (sreason s))] /\
+              Forall (fun r => r = RAct (TerminateChildren [] 0)) pre.
+Proof. exact shutdown_terminates. Qed.
+Print Assumptions C09_gives_up_terminates.
